@@ -363,7 +363,7 @@ pub fn case_c17(d: &[u8]) -> c17::Case {
     let a = spec(r);
     let b = spec(r);
     let nops = r.idx(13);
-    let scal = [0.0, 1.0, -1.0, 0.5, -2.0, 0.1, -0.3, 1.0 / 3.0];
+    let scal = [0.0, 1.0, -1.0, 0.5, -2.0, 0.1, -0.3, 1.0 / 3.0, 1e-17, -3e-20, 1e-300, 1099511627776.0];
     let ops = (0..nops)
         .map(|_| match r.idx(12) {
             0 => c17::Op::Add,
@@ -371,10 +371,10 @@ pub fn case_c17(d: &[u8]) -> c17::Case {
             2 => c17::Op::AddAssign,
             3 => c17::Op::SubAssign,
             4 => c17::Op::SubAssignRef,
-            5 => c17::Op::CompAdd(scal[r.idx(8)]),
-            6 => c17::Op::CompSub(scal[r.idx(8)]),
-            7 => c17::Op::CompMul(scal[r.idx(8)]),
-            8 => c17::Op::CompMulMut(scal[r.idx(8)]),
+            5 => c17::Op::CompAdd(scal[r.idx(12)]),
+            6 => c17::Op::CompSub(scal[r.idx(12)]),
+            7 => c17::Op::CompMul(scal[r.idx(12)]),
+            8 => c17::Op::CompMulMut(scal[r.idx(12)]),
             9 => c17::Op::Swap,
             10 => c17::Op::Write(r.idx(n), r.idx(n), (r.u8() % 81) as i16 - 40),
             _ => c17::Op::IsIdentity,
